@@ -672,7 +672,7 @@ def initial_responsibilities(ctx):
                 and (eff.dotted(s_.value.func) or "").endswith("_m_step")), None)
     if start is None or end is None or end <= start:
         ctx.add(ObResult("C15/cluster.GaussianMixture._initialize_parameters/slice-found", "unknown",
-                         detail="could not locate the responsibility initialisation statements"))
+                         detail="could not locate the responsibility initialisation statements")).replayer = "c15_gmm"
         return
     stmts = body[start:end]
 
@@ -706,14 +706,14 @@ def initial_responsibilities(ctx):
               "sample_weight": st.new_arr(fresh_arr((n,), "real", "w"))}
     try:
         outs = [o for o in I.exec_block(stmts, st, CL)]
-    except Unsupported as e:
+    except __import__("pyvc.values", fromlist=["x"]).engine_errors() as e:
         ctx.add(ObResult("C15/cluster.GaussianMixture._initialize_parameters/initial-responsibilities/vc-generation", "unknown",
-                         detail=f"outside the supported subset: {e}"))
+                         detail=f"outside the supported subset: {type(e).__name__}: {str(e)[:200]}")).replayer = "c15_gmm"
         return
     falls = [o for o in outs if o.kind == "fall"]
     if len(falls) != 1:
         ctx.add(ObResult("C15/cluster.GaussianMixture._initialize_parameters/initial-responsibilities/vc-generation", "unknown",
-                         detail="statements fork or raise"))
+                         detail="statements fork or raise")).replayer = "c15_gmm"
         return
     stf = falls[0].state
     # the array that was exponentiated and row-summed for the normalisation
